@@ -119,6 +119,14 @@ def run(rep, tier):
                                                                               'deep-nesting', 'runtime', 'sourcer/')))
     rep.floor('route modules emitted', nmods, 26)
     rep.floor('call sites examined', stats['callsites'], 200)
+    # a parameter is a reference with the weakest summary: it may fail after consuming (the argument
+    # can be any parsing expression), so Ref's static flags must say so for local names too
+    from .. import e1run
+    from . import shared
+    shared.describe_rules(rep, only=('G2-cp-sound', 'G2-as-sound', 'S-ref'))
+    total = e1run.run(rep, ['Ref'], tier, select=lambda f: f['rule'] in ('G2-cp-sound', 'G2-as-sound', 'S-ref',
+                                                                       'F0-flags-exclusive'))
+    rep.floor('configurations of Ref', total.get('Ref', 0), 12)
     sibling_argumentize(rep)
     visitor_coverage(rep)
     interception_table(rep)
